@@ -121,7 +121,7 @@ def minimise(chk, hx, judge, ctext, want):
         for l in out.splitlines():
             if l.startswith("FAIL ") or l.startswith("PENDING "):
                 d = parse_fail(l)
-                return all(d.get(k) == want.get(k) for k in ("kind", "op", "desc"))
+                return all(d.get(k) == want.get(k) for k in ("kind", "op", "desc", "what", "why", "expected", "got", "tgt_dim"))
         return False
     i = len(body) - 1
     budget = 40
@@ -230,6 +230,15 @@ def _run_histories(chk, hx, judge):
             txt = "".join(gen_grid.matrix_case(r3, "m%d" % (k + i)) for i in range(min(600, target3 - k)))
             batches.append(("matrix%d" % k, txt))
             k += 600
+
+        # fourth stream: twins (same grid by two routes, every pair of lazy states, all binary queries twice, both orders)
+        r4 = random.Random(chk.seed * 32452843 + 23)
+        target4 = 1500 if chk.quick else 15000
+        k = 0
+        while k < target4:
+            txt = "".join(gen_grid.twins_case(r4, "t%d" % (k + i)) for i in range(min(500, target4 - k)))
+            batches.append(("twins%d" % k, txt))
+            k += 500
 
     hist = {}
     ncases = nfail = nunk = 0
